@@ -1066,7 +1066,7 @@ def load_func_for_dataclass(
 
     on_unknown_key = meta.v1_on_unknown_key
 
-    catch_all_field: str | None = field_to_aliases.pop(CATCH_ALL, None)
+    catch_all_field: str | None = field_to_aliases.get(CATCH_ALL)
     has_catch_all = catch_all_field is not None
 
     if has_catch_all:
